@@ -7,7 +7,7 @@ from typing import TypeVar
 from geneticengine.exceptions import GeneticEngineError
 
 from geneticengine.grammar.grammar import Grammar
-from geneticengine.random.sources import RandomSource
+from geneticengine.random.sources import RandomSource, float_between
 from geneticengine.representations.api import (
     RepresentationWithCrossover,
     RepresentationWithMutation,
@@ -50,7 +50,7 @@ class GenotypeBackedSource(RandomSource):
 
     def random_float(self, min: float, max: float) -> float:
         k = self.randint(1, MAX_GENE_VALUE)
-        return 1 * (max - min) / k + min
+        return float_between(min, max, 1, k)
 
 
 class DynamicSGEDecider(SynthesisDecider):
